@@ -183,9 +183,9 @@ def unit_predict(model, sizes, mode, inplace=False, generic=False):
 
 def units(tier):
     us = []
-    rate_shapes = [((1, 1), None), ((2, 1), [1, 1]), ((1, 1, 1), [2, 1, 2])] if tier == "quick" else \
+    rate_shapes = [((1, 1), None), ((2, 1), [1, 1]), ((1, 1, 1), [2, 1, 2]), ((6, 5), [1, 2])] if tier == "quick" else \
         [((1, 1), None), ((2, 1), [1, 1]), ((1, 1, 1), [2, 1, 2]), ((2, 1, 3), None), ((1, 1, 1, 1), [1, 2, 2, 3]), ((1,) * 6, [1, 2, 2, 3, 3, 3])]
-    shift_shapes = [((1, 1), None), ((2, 2), [1, 1]), ((1, 1, 1), [2, 1, 2])] if tier == "quick" else \
+    shift_shapes = [((1, 1), None), ((2, 2), [1, 1]), ((1, 1, 1), [2, 1, 2]), ((5, 5), [2, 1])] if tier == "quick" else \
         [((1, 1), None), ((2, 2), [1, 1]), ((1, 1, 1), [2, 1, 2]), ((3, 3), [2, 1]), ((2, 2, 2, 2), [1, 2, 2, 3]), ((1,) * 6, [1, 2, 2, 3, 3, 3])]
     for m in extract.MODELS:
         if m in SCALE_RATE:
@@ -203,9 +203,9 @@ def units(tier):
             us.append(("unit_predict", (m, (1,) * n, "shift", False, True)))
         for s, r in shift_shapes:
             us.append(("unit_rate", (m, s, "shift", r)))
-        for s in ([(1, 1), (2, 1), (1, 1, 1)] if tier == "quick" else [(1, 1), (2, 1), (2, 3), (1, 1, 1), (2, 1, 3), (1, 1, 1, 1)]):
+        for s in ([(1, 1), (2, 1), (1, 1, 1), (6, 5)] if tier == "quick" else [(1, 1), (2, 1), (2, 3), (6, 5), (1, 1, 1), (2, 1, 3), (1, 1, 1, 1)]):
             us.append(("unit_predict", (m, s, "scale")))
-        for s in ([(1, 1), (2, 2), (1, 1, 1)] if tier == "quick" else [(1, 1), (2, 2), (3, 3), (1, 1, 1), (2, 2, 2), (1, 1, 1, 1)]):
+        for s in ([(1, 1), (2, 2), (1, 1, 1), (5, 5)] if tier == "quick" else [(1, 1), (2, 2), (3, 3), (5, 5), (1, 1, 1), (2, 2, 2), (1, 1, 1, 1)]):
             us.append(("unit_predict", (m, s, "shift")))
     if tier == "thorough":
         us.append(("unit_lean", ()))
